@@ -22,8 +22,8 @@ import (
 // C26: beacon selection = the k-1 shortest + the most link-diverse remaining one (or the next one).
 //
 // Candidates are abstract: a candidate is an injective sequence (length 1..maxLen) over an alphabet of M
-// links; a link is (ISD-AS, ConsEgress). The alphabet is laid out so that some links share the AS and some
-// share the interface number, i.e. only the *pair* identifies a link.
+// links; a link is (ISD-AS, ConsEgress). The alphabets contain, for each of ISD, AS number and interface
+// number, two links that differ in that component only, i.e. only the full triple identifies a link.
 // The oracle works on bit masks of link indices and never calls scion code.
 // ---------------------------------------------------------------------------------------------
 
@@ -43,20 +43,36 @@ type c26Pool struct {
 	linkIf    []uint16
 }
 
-func c26Links(m int) ([]addr.IA, []uint16) {
-	// link i: AS = 1-ff00:0:(110 + i/2), egress = 1 + i%2 + (i/4): (A,1)(A,2)(B,1)(B,2)(C,2)(C,3)...
+// c26Alphabet: six links such that for each component of a link's identity (ISD, AS number, egress interface)
+// there are two links that differ in that component ONLY:
+//
+//	a = 1-ff00:0:110 #1   b = 2-ff00:0:110 #1 (ISD only)   c = 1-ff00:0:110 #2 (interface only)
+//	d = 1-ff00:0:111 #1 (AS number only)   e = 2-ff00:0:110 #2   f = 2-ff00:0:111 #1
+//
+// An alphabet of m links is a prefix of one of two orderings ("layouts"), so that also the 3-link alphabets
+// contain an ISD-only, an interface-only (layout 0) and an AS-number-only pair (layout 1).
+var c26Alphabet = []struct {
+	isd addr.ISD
+	as  uint64
+	ifc uint16
+}{{1, 0x110, 1}, {2, 0x110, 1}, {1, 0x110, 2}, {1, 0x111, 1}, {2, 0x110, 2}, {2, 0x111, 1}}
+
+var c26Layouts = [][]int{{0, 1, 2, 3, 4, 5}, {0, 3, 1, 2, 5, 4}}
+
+func c26Links(m, layout int) ([]addr.IA, []uint16) {
 	ias := make([]addr.IA, m)
 	ifs := make([]uint16, m)
 	for i := 0; i < m; i++ {
-		ias[i] = addr.MustIAFrom(1, addr.AS(0xff00_0000_0110+uint64(i/2)))
-		ifs[i] = uint16(1 + i%2 + i/4)
+		l := c26Alphabet[c26Layouts[layout][i]]
+		ias[i] = addr.MustIAFrom(l.isd, addr.AS(0xff00_0000_0000+l.as))
+		ifs[i] = l.ifc
 	}
 	return ias, ifs
 }
 
-func c26BuildPool(m, maxLen int) *c26Pool {
+func c26BuildPool(m, maxLen, layout int) *c26Pool {
 	p := &c26Pool{m: m, maxLen: maxLen, byLen: make([][]int, maxLen+1)}
-	p.linkIA, p.linkIf = c26Links(m)
+	p.linkIA, p.linkIf = c26Links(m, layout)
 	var rec func(cur []int, mask uint32, l int)
 	rec = func(cur []int, mask uint32, l int) {
 		if len(cur) == l {
@@ -169,7 +185,7 @@ func c26Spec(p *c26Pool, div [][]int8, list []int, k int) (allowed uint32, class
 	return 1 << (k - 1), "fallback-less-diverse"
 }
 
-type c26Cfg struct{ m, maxLen, nMax int }
+type c26Cfg struct{ m, maxLen, nMax, layout int }
 
 type c26dirStat struct {
 	mism    atomic.Int64
@@ -205,15 +221,16 @@ func TestC26(t *testing.T) {
 	ctx := context.Background()
 
 	cfgs := mc.Pick(
-		[]c26Cfg{{3, 3, 6}, {4, 3, 4}, {5, 2, 4}},
-		[]c26Cfg{{3, 3, 7}, {4, 3, 5}, {4, 4, 4}, {5, 2, 5}, {6, 2, 4}})
+		[]c26Cfg{{3, 3, 6, 0}, {3, 3, 5, 1}, {4, 3, 4, 0}, {5, 2, 4, 1}},
+		[]c26Cfg{{3, 3, 7, 0}, {3, 3, 7, 1}, {4, 3, 5, 0}, {4, 4, 4, 1}, {5, 2, 5, 0}, {6, 2, 4, 1}})
 	r.Rule = "for each (M links, max length, n_max): EVERY list of n<=n_max candidates in non-decreasing length order drawn " +
-		"(with repetition) from ALL injective link sequences of length 1..max over the M-link alphabet, x every k in 1..n+1; " +
+		"(with repetition) from ALL injective link sequences of length 1..max over the M-link alphabet (every alphabet has links " +
+		"that differ only in the ISD, only in the AS number or only in the interface number), x every k in 1..n+1; " +
 		"a case = (list,k), pairwise different by construction; non-trivial = n > k (a real selection happens)"
 
 	// ---- Part 0: Beacon.Diversity against its documented meaning, on every ordered pair of the largest pool ----
 	{
-		p := c26BuildPool(6, 3)
+		p := c26BuildPool(6, 3, 0)
 		var bad atomic.Int64
 		mc.ParallelFor(len(p.cands), func(a int) {
 			for b := range p.cands {
@@ -249,7 +266,7 @@ func TestC26(t *testing.T) {
 	var capped atomic.Bool
 
 	for _, cfg := range cfgs {
-		p := c26BuildPool(cfg.m, cfg.maxLen)
+		p := c26BuildPool(cfg.m, cfg.maxLen, cfg.layout)
 		// work items: the first two list elements (or a single one) → remaining suffix enumerated by the worker
 		type item struct{ a, b int } // b == -1: the one-element list [a]
 		var items []item
@@ -386,7 +403,7 @@ func TestC26(t *testing.T) {
 			outMu.Unlock()
 		})
 		lists.Add(cfgLists.Load())
-		perCfg = append(perCfg, map[string]any{"links": cfg.m, "max_len": cfg.maxLen, "n_max": cfg.nMax,
+		perCfg = append(perCfg, map[string]any{"links": cfg.m, "max_len": cfg.maxLen, "layout": cfg.layout, "n_max": cfg.nMax,
 			"pool": len(p.cands), "lists": cfgLists.Load(), "evaluations": cfgEvals.Load()})
 		if capped.Load() {
 			r.Capped(fmt.Sprintf("budget hit in configuration %+v", cfg))
@@ -490,7 +507,7 @@ func (d c26FakeDB) InsertBeacon(context.Context, beacon.Beacon, beacon.Usage) (b
 
 // c26StoreProbe: Policies{Prop.BestSetSize: 1} passes validation; does BeaconsToPropagate survive 2 candidates?
 func c26StoreProbe() string {
-	p := c26BuildPool(3, 2)
+	p := c26BuildPool(3, 2, 0)
 	db := c26FakeDB{bs: []beacon.Beacon{{Segment: p.segs[0], InIfID: 1}, {Segment: p.segs[1], InIfID: 2}}}
 	st, err := beacon.NewBeaconStore(beacon.Policies{Prop: beacon.Policy{BestSetSize: 1}}, db)
 	if err != nil {
